@@ -142,7 +142,13 @@ class _NPProxy:
         return getattr(self._real, k)
 
     def linspace(self, *a, **kw):
-        self._rec.setdefault('linspace_calls', []).append((tuple(float(x) for x in a), dict(kw)))
+        # arguments bound to np.linspace's signature (start, stop, num): positional and keyword spellings of one call are one call
+        names = ['start', 'stop', 'num', 'endpoint', 'retstep', 'dtype', 'axis']
+        bound = dict(zip(names, a))
+        bound.update(kw)
+        core = tuple(float(bound[k]) for k in ('start', 'stop', 'num') if k in bound)
+        rest = {k: v for k, v in bound.items() if k not in ('start', 'stop', 'num')}
+        self._rec.setdefault('linspace_calls', []).append((core, rest))
         return self._real.array(self._grid, dtype=float)
 
 
